@@ -24,12 +24,25 @@ Definition deterministic (r : rule) : Prop :=
   | _ => True
   end.
 
+(* the rules that elect the top m of a round-0 score ranking in one step, with the scoring, the
+   seat count and the tiebreak option they use *)
+Definition one_shot_params (r : rule) (p : profile cand)
+  : option (score_kind * Z * option tb_kind) :=
+  match r with
+  | RPlurality m tb => Some (SKFpv, m, tb)
+  | RBorda m v tb =>
+      Some (SKVector (match v with Some (x :: l) => x :: l | _ => default_borda cand p end), m, tb)
+  | RRating m _ _ tb | RLimited m _ tb | RBloc m _ tb => Some (SKBallotScores, m, tb)
+  | _ => None
+  end.
+
 (* a round that records no tiebreak *)
 Definition no_tiebreak (st : estate) : Prop := tiebreaks st = [].
 
-(* all members of [g] carry one common value [k] in the score list [d] (the deciding tally) *)
-Definition tied_on (d : scores) (g : cset) : Prop :=
-  exists k : Q, forall c, In c g -> exists q, In (c, q) d /\ q == k.
+(* all members of [g] carry the common value [k] in the score list [d] (the deciding tally) *)
+Definition tied_at (d : scores) (g : cset) (k : Q) : Prop :=
+  forall c, In c g -> exists q, In (c, q) d /\ q == k.
+Definition tied_on (d : scores) (g : cset) : Prop := exists k : Q, tied_at d g k.
 
 (* a group that needs a random order: two or more members *)
 Definition big (g : cset) : bool := Nat.ltb 1 (length g).
